@@ -113,19 +113,77 @@ func runPinch(c *hlib.Ctx) {
 	}
 }
 
+// canonTri rotates a triangle so that its least vertex (X, then Y, then Z) comes first: the orientation is kept,
+// the choice of the first vertex is forgotten.
+func canonTri(t model3d.Triangle) model3d.Triangle {
+	less := func(a, b model3d.Coord3D) bool {
+		if a.X != b.X {
+			return a.X < b.X
+		}
+		if a.Y != b.Y {
+			return a.Y < b.Y
+		}
+		return a.Z < b.Z
+	}
+	k := 0
+	for i := 1; i < 3; i++ {
+		if less(t[i], t[k]) {
+			k = i
+		}
+	}
+	return model3d.Triangle{t[k], t[(k+1)%3], t[(k+2)%3]}
+}
+
+// orientedKey: the triangle multiset of a mesh up to rotation of each triangle's vertex order; with reverse, every
+// triangle is turned round first.
+func orientedKey(m *model3d.Mesh, reverse bool) map[model3d.Triangle]int {
+	r := map[model3d.Triangle]int{}
+	m.Iterate(func(t *model3d.Triangle) {
+		u := *t
+		if reverse {
+			u[0], u[1] = u[1], u[0]
+		}
+		r[canonTri(u)]++
+	})
+	return r
+}
+
+// det3rm: determinant of a row-major 3x3 matrix (small integers / powers of two here: exact).
+func det3rm(m []float64) float64 {
+	return m[0]*(m[4]*m[8]-m[5]*m[7]) - m[1]*(m[3]*m[8]-m[5]*m[6]) + m[2]*(m[3]*m[7]-m[4]*m[6])
+}
+
 // runConj: MarchingCubesConj(s, delta, iters, xforms...) must be the mesh of the transformed solid
 // mapped back vertex by vertex through the inverse (theorem marching_cubes_conj is about that solid
-// and that map; the meshing itself is C01/C02).  Evaluated directly on the implementation.
+// and that map; the meshing itself is C01/C02) - with every triangle turned round iff the joined
+// transform reverses orientation (a mirror image, a negative uniform scale, an odd number of them), so
+// that the normals still point out of the solid (C01: M3d.C01.conj_flip_iff_reversing; /repo d1d50a8).
+// The reference is built from MarchingCubesSearch + Mesh.Transform, the orientation of the list is known
+// by construction; triangles are compared up to rotation of their vertex order.  Evaluated directly on
+// the implementation.
 func runConj(c *hlib.Ctx) {
 	g := &gen{c: c, dim: 3}
-	for i := 0; i < 6; i++ {
+	for i := 0; i < 8; i++ {
 		var xs []*xf
+		rev := false
 		for n := c.Rng.Intn(3) + 1; n > 0; n-- {
-			switch c.Rng.Intn(3) {
+			switch c.Rng.Intn(5) {
 			case 0:
 				xs = append(xs, &xf{kind: 'T', v: [3]float64{float64(c.Rng.Intn(5) - 2), 0, float64(c.Rng.Intn(3))}})
 			case 1:
-				xs = append(xs, &xf{kind: 'S', s: g.sign() * g.pow2(1)})
+				x := &xf{kind: 'S', s: g.sign() * g.pow2(1)}
+				rev = rev != (x.s < 0)
+				xs = append(xs, x)
+			case 2:
+				// a mirror image / rotation by pi: axis scaling by factors of either sign
+				x := &xf{kind: 'V', v: [3]float64{g.sign() * g.pow2(1), g.sign(), g.sign() * g.pow2(1)}}
+				rev = rev != (x.v[0]*x.v[1]*x.v[2] < 0)
+				xs = append(xs, x)
+			case 3:
+				// a reflection or rotation matrix (signed permutation)
+				x := &xf{kind: 'M', m: g.signedPerm()}
+				rev = rev != (det3rm(x.m) < 0)
+				xs = append(xs, x)
 			default:
 				xs = append(xs, &xf{kind: 'Q', axis: c.Rng.Intn(3), lo: 0.25, hi: 1.25, ratio: 0.5})
 			}
@@ -141,17 +199,15 @@ func runConj(c *hlib.Ctx) {
 			got := model3d.MarchingCubesConj(s, 0.25, 0, ts...)
 			joined := model3d.JoinedTransform(ts)
 			want := model3d.MarchingCubesSearch(model3d.TransformSolid(joined, s), 0.25, 0).Transform(joined.Inverse())
-			key := func(m *model3d.Mesh) map[model3d.Triangle]int {
-				r := map[model3d.Triangle]int{}
-				m.Iterate(func(t *model3d.Triangle) { r[*t]++ })
-				return r
-			}
-			a, b := key(got), key(want)
+			a, b := orientedKey(got, false), orientedKey(want, rev)
 			if len(a) != len(b) || len(a) == 0 {
 				return fmt.Sprintf("triangle sets differ in size: %d vs %d", len(a), len(b))
 			}
 			for k, v := range a {
 				if b[k] != v {
+					if orientedKey(want, !rev)[k] == v {
+						return fmt.Sprintf("triangles are oriented the wrong way round (the transform list reverses orientation: %v)", rev)
+					}
 					return "triangle sets differ"
 				}
 			}
@@ -169,6 +225,9 @@ func runConj(c *hlib.Ctx) {
 			return bad
 		})
 		c.Stat("conj3.cases", 1)
+		if rev {
+			c.Stat("conj3.reversing", 1)
+		}
 		if res != "" {
 			c.PropFail("prop:c05/marching_cubes_conj", fmt.Sprintf("xforms=[%s] %s", desc, res))
 		}
